@@ -573,6 +573,10 @@ var defPool = []string{
 	// a refused member and a healthy one that reach the same helper from the same attribute context; templates
 	// that end inside a comment, a tag, an attribute value, a script (every non-text end state)
 	`{{define "h"}}{{.A}}{{end}}{{define "X"}}<b title="{{template "h" .}}">x</b><i {{end}}{{define "Y"}}<b title="{{template "h" .}}">y</b>{{end}}{{define "Z"}}<ul><li title="{{template "h" .}}">z</li></ul>{{end}}m`,
+	// the same with one more level: the refused member and the healthy one reach the helper's derived copy only THROUGH
+	// a middle template, which the second analysis finds in the memo (it never walks into the middle template again)
+	`{{define "h"}}{{.A}}{{end}}{{define "Y"}}<b title="{{template "h" .}}">y</b>{{end}}{{define "X"}}{{template "Y" .}}<a title="{{end}}{{define "Z"}}{{template "Y" .}}!{{end}}m`,
+	`{{define "lnk"}}{{.A}}{{end}}{{define "Y"}}<a href="/p?q={{template "lnk" .}}">y</a>{{end}}{{define "X"}}{{template "Y" .}}<!-- {{end}}{{define "Z"}}<p>{{template "Y" .}}</p>{{end}}m`,
 	`{{define "X"}}<b>ok</b><!-- open{{end}}{{define "Y"}}{{template "X" .}}{{end}}{{define "Z"}}<p>{{.A}}</p>{{end}}<i>m</i><!--`,
 	`{{define "X"}}<p>{{.A}}</p><!-- c {{end}}{{define "Y"}}<script>var a = 1;{{end}}{{define "Z"}}<textarea>{{.A}}{{end}}<title>t`,
 	`{{define "X"}}<b>{{. | html}}</b>{{end}}{{define "Y"}}<div>{{.H}}</div>{{end}}{{define "Z"}}<p>{{.H | html}}</p><div>{{.H}}</div>{{end}}<i>{{.H}}</i>`,
